@@ -141,7 +141,8 @@ def run(ctx: Ctx) -> int:
 	programs += [(f'stmt:{i}', c['text']) for i, c in enumerate(stmts[::step])]
 	programs += [(f'expr-batch:{i}', srcmodel.program_of(cases[i:i + 60], i)) for i in range(0, len(cases), 60)]
 	nproc = 16
-	modules = ['example.json', 'rogw.tranp.compatible.libralies.classes'] if quick else ['example.json', 'example.FW.string', 'rogw.tranp.compatible.libralies.classes', 'rogw.tranp.compatible.libralies.type', 'tests.unit.rogw.tranp.implements.cpp.transpiler.fixtures.fixture_py2cpp', 'tests.unit.rogw.tranp.semantics.fixtures.fixture_reflections', 'rogw.tranp.lang.di', 'rogw.tranp.errors', 'rogw.tranp.syntax.node.node']
+	from harness import real_modules
+	modules = real_modules.QUICK if quick else real_modules.TRANSPILE_OK
 	with ProcessPoolExecutor(max_workers=nproc) as ex:
 		r1 = list(ex.map(_check_programs, [(programs[i::nproc],) for i in range(nproc)]))
 		r2 = list(ex.map(_check_real, modules))
